@@ -84,11 +84,11 @@ Print Assumptions C06_checkers_exact.
    RUnlock, ForEach..., FreeContext, locked refCount--), reload threads (Lock, DBI.Reload
    called, returned, ValidateDbKey, newDB.Destroy / f.Destroy, swap, Unlock) and shutdown
    threads (Lock, Destroy, Unlock) over the SAME shared state plus reloadMu as a
-   reader/writer lock.  The theorems quantify over every list of thread programs without
-   timeouts and EVERY schedule (a disabled step is a no-op). *)
+   reader/writer lock.  The theorems quantify over every list of thread programs of the standard
+   kinds (no_variants: no timed-out reload, no split release) and EVERY schedule (a disabled step is a no-op). *)
 
 (* no call on a closed backend and no second Close, for every interleaving of the sub-steps *)
-Theorem C06_smallstep_safe : forall specs sched, no_timeouts specs = true ->
+Theorem C06_smallstep_safe : forall specs sched, no_variants specs = true ->
   let ss := srun sched (sinit specs false) in
   no_use_after_close (log (sh ss)) /\ no_double_close (log (sh ss)).
 Proof. exact smallstep_safe. Qed.
@@ -97,7 +97,7 @@ Print Assumptions C06_smallstep_safe.
 (* in every state in which reloadMu is not write-held the shared state satisfies the
    invariant Inv of the atomic model, so served and pinned backends are open and all others
    closed exactly once *)
-Theorem C06_smallstep_lockfree_atomic : forall specs sched, no_timeouts specs = true ->
+Theorem C06_smallstep_lockfree_atomic : forall specs sched, no_variants specs = true ->
   let ss := srun sched (sinit specs false) in
   lk_w ss = None -> Inv (sh ss) /\ handles_ok (snap (sh ss)).
 Proof. exact smallstep_lockfree_atomic. Qed.
@@ -105,7 +105,7 @@ Print Assumptions C06_smallstep_lockfree_atomic.
 
 (* no leak after every schedule: write lock free (in particular: all threads finished, see
    C06_smallstep_quiet_unlocked) and no reader held *)
-Theorem C06_smallstep_no_leak : forall specs sched, no_timeouts specs = true ->
+Theorem C06_smallstep_no_leak : forall specs sched, no_variants specs = true ->
   let ss := srun sched (sinit specs false) in
   lk_w ss = None -> readers (sh ss) = [] ->
   forall b, openedb (log (sh ss)) b = true ->
@@ -113,7 +113,7 @@ Theorem C06_smallstep_no_leak : forall specs sched, no_timeouts specs = true ->
 Proof. exact smallstep_no_leak. Qed.
 Print Assumptions C06_smallstep_no_leak.
 
-Theorem C06_smallstep_quiet_unlocked : forall specs sched, no_timeouts specs = true ->
+Theorem C06_smallstep_quiet_unlocked : forall specs sched, no_variants specs = true ->
   let ss := srun sched (sinit specs false) in quiet ss -> lk_w ss = None.
 Proof. exact smallstep_quiet_unlocked. Qed.
 Print Assumptions C06_smallstep_quiet_unlocked.
@@ -129,7 +129,7 @@ Print Assumptions C06_smallstep_quiet_unlocked.
    events).  The mover argument would need an extensional equivalence on states (the wrapper
    and backend maps are functions) and commutation lemmas for release against every reload
    sub-step; it was not done. *)
-Theorem C06_reload_is_atomic_under_lock_partial : forall specs sched, no_timeouts specs = true ->
+Theorem C06_reload_is_atomic_under_lock_partial : forall specs sched, no_variants specs = true ->
   let ss := srun sched (sinit specs false) in
   forall t, lk_w ss = Some t ->
     wsec (ths ss t) = true /\ (forall t', t' <> t -> wsec (ths ss t') = false) /\
@@ -151,7 +151,7 @@ Print Assumptions C06_smallstep_blocked_acquire_example.
 (* it is the write lock that does it: with the lock taken only around the swap (seeded change
    c06f) a reader gets in between f.Destroy() and the swap - use after close and double close *)
 Theorem C06_smallstep_late_lock_refuted :
-  exists specs sched, no_timeouts specs = true /\
+  exists specs sched, no_variants specs = true /\
     let ss := srun sched (sinit specs true) in
     ~ no_use_after_close (log (sh ss)) /\ ~ no_double_close (log (sh ss)).
 Proof. exact smallstep_late_lock_refuted. Qed.
@@ -163,3 +163,13 @@ Theorem C06_smallstep_f28_refuted :
   exists specs sched, ~ no_use_after_close (log (sh (srun sched (sinit specs false)))).
 Proof. exact smallstep_f28_refuted. Qed.
 Print Assumptions C06_smallstep_f28_refuted.
+
+(* and DataReader.Close must be ONE critical section of DB.l: with the decrement done
+   atomically outside the lock and the destroyable-and-zero test under it (seeded change
+   c06h), f.Destroy() fits in between and the backend is closed twice *)
+Theorem C06_smallstep_split_release_refuted :
+  exists specs sched,
+    let ss := srun sched (sinit specs false) in
+    quiet ss /\ ~ no_double_close (log (sh ss)).
+Proof. exact smallstep_split_release_refuted. Qed.
+Print Assumptions C06_smallstep_split_release_refuted.
